@@ -20,10 +20,24 @@ inductive Outcome
   | failed (e : Err) (env : Env) (out : Str)         -- a run-time error ended the script
   | diverged                                         -- the step budget of the semantics ran out
 
+/-- a user-defined function as written -/
+structure SFn where
+  name : Str
+  params : List Str
+  body : List Stmt
+
+/-- the functions of a script, in the order the compiler registers them -/
+abbrev FnTable := List SFn
+
+def FnTable.find (F : FnTable) (name : Str) : Option SFn := F.reverse.find? (fun g => g.name == name)
+
 mutual
   /-- statement forms covered: assignment of a value-producing expression, if / else, while, over
       value-producing conditions -/
   def stmtE : Expr → Bool
+    | .assign _ (.call _ args) => pureEs args
+    | .call _ args => pureEs args
+    | .funcDef _ _ body => pureSs body
     | .assign _ v => pureE v
     | .ifE c cons none => pureE c && pureSs cons
     | .ifE c cons (some a) => pureE c && pureSs cons && pureSs a
@@ -36,6 +50,7 @@ mutual
     | [] => true
     | .mk _ es b :: cs => pureEs es && pureSs b && pureCases cs
   def pureS : Stmt → Bool
+    | .ret (.call _ args) => pureEs args
     | .ret e => pureE e
     | .expr e => stmtE e
   def pureSs : List Stmt → Bool
@@ -51,6 +66,51 @@ def resetVal : Value → Res
   | .iterating inner _ => .ok inner
   | .nil => .error .panic
   | _ => err "notIterable"
+
+/-- how a call ends: with a value (possibly the void value, which is not pushed), with an error, or not
+    at all within the budget -/
+inductive CallOut
+  | value (v : Value) (env : Env) (out : Str)
+  /-- the function returned nothing (the void value): nothing is pushed -/
+  | novalue (env : Env) (out : Str)
+  | failed (e : Err) (env : Env) (out : Str)
+  | undefined
+
+/-- the end of a user-function call: the function's own scope is closed -/
+def callEnd (v : Value) (env : Env) (out : Str) : CallOut :=
+  match env.removeScope with
+  | none => .failed (.error "removeScope") env out
+  | some e => if v.isType .VOID then .novalue e out else .value v e out
+
+/-- a call: the arguments left to right; a built-in or host function of that name wins over a
+    user-defined one; a user-defined function runs its body (`run`) in a new scope holding its parameters - unless `maxCallDepth`
+    calls are already open (`deep`), which is an error -,
+    a `return` gives the value, falling off the end gives none (void); its scopes are closed afterwards -/
+def callWith (deep : Bool) (run : List Stmt → Env → Str → Outcome) (M : Machine) (F : FnTable) (obj : HostVal)
+    (name : Str) (args : List Expr) (env : Env) (out : Str) : CallOut :=
+  match evalEs M obj env args out with
+  | (.error e, o) => .failed e env o
+  | (.ok vs, o) =>
+    match lookupFn M name with
+    | some impl =>
+      (match (callImpl name impl vs).res with
+       | .panic => .failed .panic env (o ++ (callImpl name impl vs).out)
+       | .unsupported => .failed .unsupported env (o ++ (callImpl name impl vs).out)
+       | .val .nil => .failed .panic env (o ++ (callImpl name impl vs).out)
+       | .val .void => .novalue env (o ++ (callImpl name impl vs).out)
+       | .val v => .value v env (o ++ (callImpl name impl vs).out))
+    | none =>
+      match F.find name with
+      | none => .failed (.error "noSuchFunction") env o
+      | some sf =>
+        if deep then .failed (.error "callDepth") env o
+        else if sf.params.length != vs.length then .failed (.error "argCount") env.addScope o
+        else
+          match run sf.body ((sf.params.zip vs).foldl (fun e (p : Str × Value) => e.declare p.1 p.2) env.addScope) o with
+          | .diverged => .undefined
+          | .failed e env' o' => .failed e (env'.truncate ((sf.params.zip vs).foldl (fun e (p : Str × Value) => e.declare p.1 p.2) env.addScope).scopes.length) o'
+          | .returned v env' o' => callEnd v (env'.truncate ((sf.params.zip vs).foldl (fun e (p : Str × Value) => e.declare p.1 p.2) env.addScope).scopes.length) o'
+          | .normal env' o' => callEnd .void (env'.truncate ((sf.params.zip vs).foldl (fun e (p : Str × Value) => e.declare p.1 p.2) env.addScope).scopes.length) o'
 
 /-- what OpCase decides: same type and text; else, for a regexp case, the match; else false -/
 def caseOp (M : Machine) (val caseVal : Value) : Except Err (Value × Str) :=
@@ -68,8 +128,23 @@ mutual
   /-- big-step semantics of statements, with a step budget for loops: a statement runs after the one
       before it fell through; `return` ends everything at once with its value; a loop body runs once per
       turn while the condition is truthy -/
-  def execE (M : Machine) (obj : HostVal) : Nat → Expr → Env → Str → Outcome
+  def execE (M : Machine) (F : FnTable) (obj : HostVal) (depth : Nat) : Nat → Expr → Env → Str → Outcome
     | 0, _, _, _ => .diverged
+    | _ + 1, .funcDef _ _ _, env, out => .normal env out   -- defining a function does nothing at run time
+    | f + 1, .assign name (.call fn args), env, out =>
+        -- `name = fn(args)`: a call that yields no value has none to assign (no outcome is defined)
+        match callWith (decide (depth ≥ maxCallDepth)) (fun b e o => execSs M F obj (depth + 1) f b e o) M F obj fn.str args env out with
+        | .value v env' out' => .normal (env'.set name v) out'
+        | .novalue _ _ => .diverged
+        | .failed e env' out' => .failed e env' out'
+        | .undefined => .diverged
+    | f + 1, .call fn args, env, out =>
+        -- `fn(args);`: a procedure call; a value would be left on the stack (no outcome is defined)
+        match callWith (decide (depth ≥ maxCallDepth)) (fun b e o => execSs M F obj (depth + 1) f b e o) M F obj fn.str args env out with
+        | .value _ _ _ => .diverged
+        | .novalue env' out' => .normal env' out'
+        | .failed e env' out' => .failed e env' out'
+        | .undefined => .diverged
     | _ + 1, .assign name v, env, out =>
         match evalE M obj env v out with
         | (.ok x, o) => .normal (env.set name x) o
@@ -78,17 +153,17 @@ mutual
         match evalE M obj env c out with
         | (.error e, o) => .failed e env o
         | (.ok cv, o) =>
-          if cv.truthy then execSs M obj f cons env o
+          if cv.truthy then execSs M F obj depth f cons env o
           else match alt with
             | none => .normal env o
-            | some a => execSs M obj f a env o
+            | some a => execSs M F obj depth f a env o
     | f + 1, .whileE c body, env, out =>
         match evalE M obj env c out with
         | (.error e, o) => .failed e env o
         | (.ok cv, o) =>
           if cv.truthy then
-            match execSs M obj f body env o with
-            | .normal env' o' => execE M obj f (.whileE c body) env' o'
+            match execSs M F obj depth f body env o with
+            | .normal env' o' => execE M F obj depth f (.whileE c body) env' o'
             | other => other
           else .normal env o
     | f + 1, .foreachE idx x v body, env, out =>
@@ -96,7 +171,7 @@ mutual
         | (.error e, o) => .failed e env o
         | (.ok iv, o) =>
           match resetVal iv with
-          | .ok it => execIter M obj f idx x body it 0 env.addScope o
+          | .ok it => execIter M F obj depth f idx x body it 0 env.addScope o
           | .error e => .failed e env.addScope o
     | _ + 1, .infix op (.ident name) r, env, out =>
         -- compound assignment `name op= r`: the variable's value, then `r`, then the operator; the result is stored
@@ -113,23 +188,25 @@ mutual
               | .error e => .failed e env o2
               | .ok (v, o3) => .normal (env.set name v) (o2 ++ o3)
     | f + 1, .switchE v cs, env, out =>
-        match execArms M obj f v cs env out with
+        match execArms M F obj depth f v cs env out with
         | .done o => o
-        | .next env' out' => execDefaults M obj f cs env' out'
+        | .next env' out' => execDefaults M F obj depth f cs env' out'
     | _ + 1, _, env, out => .failed .unsupported env out
+  termination_by structural f => f
   /-- the non-default cases of a switch in source order: the first case expression that matches the value
       (which is evaluated anew for every test) selects the block; after it the switch is over -/
-  def execArms (M : Machine) (obj : HostVal) : Nat → Expr → List Case → Env → Str → ArmOut
+  def execArms (M : Machine) (F : FnTable) (obj : HostVal) (depth : Nat) : Nat → Expr → List Case → Env → Str → ArmOut
     | 0, _, _, _, _ => .done .diverged
     | _ + 1, _, [], env, out => .next env out
     | f + 1, v, .mk isDef es b :: rest, env, out =>
-        if isDef then execArms M obj f v rest env out
+        if isDef then execArms M F obj depth f v rest env out
         else
-          match execArm M obj f v es b env out with
+          match execArm M F obj depth f v es b env out with
           | .done o => .done o
-          | .next env' out' => execArms M obj f v rest env' out'
+          | .next env' out' => execArms M F obj depth f v rest env' out'
+  termination_by structural f => f
   /-- the expressions of one `case a, b, c { … }`, left to right -/
-  def execArm (M : Machine) (obj : HostVal) : Nat → Expr → List Expr → List Stmt → Env → Str → ArmOut
+  def execArm (M : Machine) (F : FnTable) (obj : HostVal) (depth : Nat) : Nat → Expr → List Expr → List Stmt → Env → Str → ArmOut
     | 0, _, _, _, _, _ => .done .diverged
     | _ + 1, _, [], _, env, out => .next env out
     | f + 1, v, e :: es, b, env, out =>
@@ -142,49 +219,60 @@ mutual
             match caseOp M vv ev with
             | .error x => .done (.failed x env o2)
             | .ok (t, o3) =>
-              if t.truthy then .done (execSs M obj f b env (o2 ++ o3))
-              else execArm M obj f v es b env (o2 ++ o3)
+              if t.truthy then .done (execSs M F obj depth f b env (o2 ++ o3))
+              else execArm M F obj depth f v es b env (o2 ++ o3)
+  termination_by structural f => f
   /-- the default blocks (reached when no case matched), in source order -/
-  def execDefaults (M : Machine) (obj : HostVal) : Nat → List Case → Env → Str → Outcome
+  def execDefaults (M : Machine) (F : FnTable) (obj : HostVal) (depth : Nat) : Nat → List Case → Env → Str → Outcome
     | 0, _, _, _ => .diverged
     | _ + 1, [], env, out => .normal env out
     | f + 1, .mk isDef _ b :: rest, env, out =>
         if isDef then
-          match execSs M obj f b env out with
-          | .normal env' o' => execDefaults M obj f rest env' o'
+          match execSs M F obj depth f b env out with
+          | .normal env' o' => execDefaults M F obj depth f rest env' o'
           | other => other
-        else execDefaults M obj f rest env out
+        else execDefaults M F obj depth f rest env out
+  termination_by structural f => f
   /-- the turns of a foreach loop over `it`, from offset `k`: each element is bound (with its index or
       key when an index variable was given) in the loop's scope and the body runs; when no element is left
       the loop's scope is closed -/
-  def execIter (M : Machine) (obj : HostVal) : Nat → Str → Str → List Stmt → Value → Nat → Env → Str → Outcome
+  def execIter (M : Machine) (F : FnTable) (obj : HostVal) (depth : Nat) : Nat → Str → Str → List Stmt → Value → Nat → Env → Str → Outcome
     | 0, _, _, _, _, _, _, _ => .diverged
     | f + 1, idx, x, body, it, k, env, out =>
         match iterNext it k with
         | some (val, i) =>
           let env1 := env.declare x val
           let env2 := if idx.isEmpty then env1 else env1.declare idx i
-          match execSs M obj f body env2 out with
-          | .normal env3 o3 => execIter M obj f idx x body it (k + 1) env3 o3
+          match execSs M F obj depth f body env2 out with
+          | .normal env3 o3 => execIter M F obj depth f idx x body it (k + 1) env3 o3
           | other => other
         | none =>
           match env.removeScope with
           | none => .failed (.error "removeScope") env out
           | some e => .normal e out
-  def execS (M : Machine) (obj : HostVal) : Nat → Stmt → Env → Str → Outcome
+  termination_by structural f => f
+  def execS (M : Machine) (F : FnTable) (obj : HostVal) (depth : Nat) : Nat → Stmt → Env → Str → Outcome
     | 0, _, _, _ => .diverged
+    | f + 1, .ret (.call fn args), env, out =>
+        match callWith (decide (depth ≥ maxCallDepth)) (fun b e o => execSs M F obj (depth + 1) f b e o) M F obj fn.str args env out with
+        | .value v env' out' => .returned v env' out'
+        | .novalue _ _ => .diverged
+        | .failed e env' out' => .failed e env' out'
+        | .undefined => .diverged
     | _ + 1, .ret e, env, out =>
         match evalE M obj env e out with
         | (.ok v, o) => .returned v env o
         | (.error x, o) => .failed x env o
-    | f + 1, .expr e, env, out => execE M obj f e env out
-  def execSs (M : Machine) (obj : HostVal) : Nat → List Stmt → Env → Str → Outcome
+    | f + 1, .expr e, env, out => execE M F obj depth f e env out
+  termination_by structural f => f
+  def execSs (M : Machine) (F : FnTable) (obj : HostVal) (depth : Nat) : Nat → List Stmt → Env → Str → Outcome
     | 0, _, _, _ => .diverged
     | _ + 1, [], env, out => .normal env out
     | f + 1, s :: ss, env, out =>
-        match execS M obj f s env out with
-        | .normal env' o' => execSs M obj f ss env' o'
+        match execS M F obj depth f s env out with
+        | .normal env' o' => execSs M F obj depth f ss env' o'
         | other => other
+  termination_by structural f => f
 end
 
 /-- where the VM stands after the code of a statement, according to its outcome -/
@@ -384,34 +472,34 @@ theorem foreach_layout {M : Machine} {code : Bytes} {idx x : Str} {v : Expr} {bo
     exact this.cast (by omega)
 
 section
-variable (M : Machine) (obj : HostVal) (code : Bytes)
+variable (M : Machine) (F : FnTable) (obj : HostVal) (code : Bytes)
 
 /-- what is proved for every statement-like expression, statement and block, for a given budget -/
 structure SIH (f : Nat) : Prop where
   E : ∀ (e : Expr) (base : Nat) (cst : CState) (r : List Instr × CState), stmtE e = true →
       compileExpr e base cst = .ok r → CodeAt code base r.1 → (∃ ex, M.consts = r.2.consts ++ ex) →
-      ∀ (stack : List Value) (env : Env) (out : Str) (polls depth : Nat), execE M obj f e env out ≠ .diverged →
+      ∀ (stack : List Value) (env : Env) (out : Str) (polls depth : Nat), execE M F obj depth f e env out ≠ .diverged →
       ∃ n k q, ∀ fuel, loop M obj code (fuel + n) base stack ⟨env, out, polls, depth⟩ =
-        afterS M obj code (fuel + q) (base + e.size) stack (polls + k) depth (execE M obj f e env out)
+        afterS M obj code (fuel + q) (base + e.size) stack (polls + k) depth (execE M F obj depth f e env out)
   S : ∀ (s : Stmt) (base : Nat) (cst : CState) (r : List Instr × CState), pureS s = true →
       compileStmt s base cst = .ok r → CodeAt code base r.1 → (∃ ex, M.consts = r.2.consts ++ ex) →
-      ∀ (stack : List Value) (env : Env) (out : Str) (polls depth : Nat), execS M obj f s env out ≠ .diverged →
+      ∀ (stack : List Value) (env : Env) (out : Str) (polls depth : Nat), execS M F obj depth f s env out ≠ .diverged →
       ∃ n k q, ∀ fuel, loop M obj code (fuel + n) base stack ⟨env, out, polls, depth⟩ =
-        afterS M obj code (fuel + q) (base + s.size) stack (polls + k) depth (execS M obj f s env out)
+        afterS M obj code (fuel + q) (base + s.size) stack (polls + k) depth (execS M F obj depth f s env out)
   Ss : ∀ (ss : List Stmt) (base : Nat) (cst : CState) (r : List Instr × CState), pureSs ss = true →
       compileStmts ss base cst = .ok r → CodeAt code base r.1 → (∃ ex, M.consts = r.2.consts ++ ex) →
-      ∀ (stack : List Value) (env : Env) (out : Str) (polls depth : Nat), execSs M obj f ss env out ≠ .diverged →
+      ∀ (stack : List Value) (env : Env) (out : Str) (polls depth : Nat), execSs M F obj depth f ss env out ≠ .diverged →
       ∃ n k q, ∀ fuel, loop M obj code (fuel + n) base stack ⟨env, out, polls, depth⟩ =
-        afterS M obj code (fuel + q) (base + Stmt.sizes ss) stack (polls + k) depth (execSs M obj f ss env out)
+        afterS M obj code (fuel + q) (base + Stmt.sizes ss) stack (polls + k) depth (execSs M F obj depth f ss env out)
   /-- a foreach loop from its head (the two name constants before OpIterationNext), the iterator on the stack -/
   I : ∀ (idx x : Str) (v : Expr) (body : List Stmt) (base : Nat) (cst : CState) (r : List Instr × CState),
       pureE v = true → pureSs body = true →
       compileExpr (.foreachE idx x v body) base cst = .ok r → CodeAt code base r.1 → (∃ ex, M.consts = r.2.consts ++ ex) →
       ∀ (it : Value) (k : Nat) (stack : List Value) (env : Env) (out : Str) (polls depth : Nat),
-        execIter M obj f idx x body it k env out ≠ .diverged →
+        execIter M F obj depth f idx x body it k env out ≠ .diverged →
       ∃ n k' q, ∀ fuel, loop M obj code (fuel + n) (base + v.size + 1) (.iterating it k :: stack) ⟨env, out, polls, depth⟩ =
         afterS M obj code (fuel + q) (base + (Expr.foreachE idx x v body).size) stack (polls + k') depth
-          (execIter M obj f idx x body it k env out)
+          (execIter M F obj depth f idx x body it k env out)
 
   /-- the tests of one `case a, b, c { … }` -/
   Rm : ∀ (v : Expr) (es : List Expr) (b : List Stmt) (base endPos : Nat) (cst : CState) (r : List Instr × CState),
@@ -419,39 +507,412 @@ structure SIH (f : Nat) : Prop where
       compileArm (fun b s => compileExpr v b s) v.size (fun bs s => compileStmts b bs s) (Stmt.sizes b) es base endPos cst = .ok r →
       CodeAt code base r.1 → (∃ ex, M.consts = r.2.consts ++ ex) → endPos < code.length →
       base + Case.armSize v.size (Stmt.sizes b) es ≤ endPos →
-      ∀ (stack : List Value) (env : Env) (out : Str) (polls depth : Nat), execArm M obj f v es b env out ≠ .done .diverged →
+      ∀ (stack : List Value) (env : Env) (out : Str) (polls depth : Nat), execArm M F obj depth f v es b env out ≠ .done .diverged →
       ∃ n k q, ∀ fuel, loop M obj code (fuel + n) base stack ⟨env, out, polls, depth⟩ =
         afterA M obj code (fuel + q) endPos (base + Case.armSize v.size (Stmt.sizes b) es) stack (polls + k) depth
-          (execArm M obj f v es b env out)
+          (execArm M F obj depth f v es b env out)
   /-- the non-default cases of a switch -/
   Am : ∀ (v : Expr) (cs : List Case) (base endPos : Nat) (cst : CState) (r : List Instr × CState),
       pureE v = true → pureCases cs = true →
       compileArms (fun b s => compileExpr v b s) v.size cs base endPos cst = .ok r →
       CodeAt code base r.1 → (∃ ex, M.consts = r.2.consts ++ ex) → endPos < code.length →
       base + Case.armsSize v.size cs ≤ endPos →
-      ∀ (stack : List Value) (env : Env) (out : Str) (polls depth : Nat), execArms M obj f v cs env out ≠ .done .diverged →
+      ∀ (stack : List Value) (env : Env) (out : Str) (polls depth : Nat), execArms M F obj depth f v cs env out ≠ .done .diverged →
       ∃ n k q, ∀ fuel, loop M obj code (fuel + n) base stack ⟨env, out, polls, depth⟩ =
         afterA M obj code (fuel + q) endPos (base + Case.armsSize v.size cs) stack (polls + k) depth
-          (execArms M obj f v cs env out)
+          (execArms M F obj depth f v cs env out)
   /-- the default blocks -/
   Dm : ∀ (cs : List Case) (base : Nat) (cst : CState) (r : List Instr × CState), pureCases cs = true →
       compileDefaults cs base cst = .ok r → CodeAt code base r.1 → (∃ ex, M.consts = r.2.consts ++ ex) →
-      ∀ (stack : List Value) (env : Env) (out : Str) (polls depth : Nat), execDefaults M obj f cs env out ≠ .diverged →
+      ∀ (stack : List Value) (env : Env) (out : Str) (polls depth : Nat), execDefaults M F obj depth f cs env out ≠ .diverged →
       ∃ n k q, ∀ fuel, loop M obj code (fuel + n) base stack ⟨env, out, polls, depth⟩ =
-        afterS M obj code (fuel + q) (base + Case.defaultsSize cs) stack (polls + k) depth (execDefaults M obj f cs env out)
+        afterS M obj code (fuel + q) (base + Case.defaultsSize cs) stack (polls + k) depth (execDefaults M F obj depth f cs env out)
 
-theorem SIH_zero : SIH M obj code 0 := by
+theorem SIH_zero : SIH M F obj code 0 := by
   constructor <;> intros <;> simp_all [execE, execS, execSs, execIter, execArms, execArm, execDefaults]
 
 
-variable {M obj code}
+variable {M F obj code}
 
-theorem step_Ss (ctx : Ctx M code) (f : Nat) (ih : SIH M obj code f) :
+/-! ### calls -/
+
+/-- the code of a function: its body, and `OpVoid; OpReturn` unless the body's last instruction is a return -/
+def endsRet (cb : List Instr) : Bool := match cb.getLast? with | some i => i.op == Op.return | none => false
+def fnCode (cb : List Instr) : List Instr := if endsRet cb then cb else cb ++ [⟨Op.void, 0⟩, ⟨Op.return, 0⟩]
+
+/-- the compiled functions of the machine are the functions of the table: same names and parameters,
+    each body compiled from some compiler state whose constants the machine has -/
+structure FnOK (M : Machine) (F : FnTable) (obj : HostVal) : Prop where
+  missing : ∀ name, F.find name = none → lookupUser M name = none
+  found : ∀ name sf, F.find name = some sf → ∃ uf cst r, lookupUser M name = some uf ∧ uf.params = sf.params ∧
+      pureSs sf.body = true ∧ compileStmts sf.body 0 cst = .ok r ∧ uf.code = encodeAll (fnCode r.1) ∧
+      (∃ ex, M.consts = r.2.consts ++ ex) ∧ uf.code.length ≤ 65536 ∧
+      (endsRet r.1 = true → ∀ depth f env out e' o', execSs M F obj depth f sf.body env out ≠ .normal e' o')
+
+theorem step_void (M : Machine) (obj : HostVal) (len : Nat) (rb : Bytes → RunSt → Res × RunSt) (arg next : Nat)
+    (stack : List Value) (st : RunSt) :
+    step M obj len rb Op.void.toNat arg next stack st = .cont next (.void :: stack) st := by
+  have : Op.ofNat? Op.void.toNat = some .void := rfl
+  simp only [step, this, isBinary]; simp
+
+/-- what OpCall does with the arguments on the stack, for a built-in or host function -/
+theorem step_call_host (M : Machine) (obj : HostVal) (len : Nat) (rb : Bytes → RunSt → Res × RunSt) (next : Nat)
+    (cn : Value) (vs : List Value) (stack : List Value) (st : RunSt) (impl : FnImpl)
+    (hl : lookupFn M cn.inspect = some impl) :
+    step M obj len rb Op.call.toNat vs.length next (cn :: (vs.reverse ++ stack)) st =
+      (match (callImpl cn.inspect impl vs).res with
+       | .panic => .halt (.error .panic) { st with out := st.out ++ (callImpl cn.inspect impl vs).out }
+       | .unsupported => .halt (.error .unsupported) { st with out := st.out ++ (callImpl cn.inspect impl vs).out }
+       | .val .nil => .halt (.error .panic) { st with out := st.out ++ (callImpl cn.inspect impl vs).out }
+       | .val .void => .cont next stack { st with out := st.out ++ (callImpl cn.inspect impl vs).out }
+       | .val v => .cont next (v :: stack) { st with out := st.out ++ (callImpl cn.inspect impl vs).out }) := by
+  have : Op.ofNat? Op.call.toNat = some .call := rfl
+  simp only [step, this, isBinary]
+  have hp : popN vs.length (vs.reverse ++ stack) = some (vs, stack) := by
+    unfold popN
+    have : ¬ ((vs.reverse ++ stack).length < vs.length) := by simp
+    simp only [this, ↓reduceIte]
+    have h1 : (vs.reverse ++ stack).take vs.length = vs.reverse := by simp
+    have h3 : (vs.reverse ++ stack).drop vs.length = stack := by simp
+    rw [h1, h3]; simp
+  simp only [Bool.false_eq_true, ↓reduceIte, hp, hl]
+  generalize callImpl cn.inspect impl vs = r
+  cases hr : r.res with
+  | panic => rfl
+  | unsupported => rfl
+  | val v => cases v <;> rfl
+
+/-- … for a name that is neither built-in, host nor user-defined -/
+theorem step_call_unknown (M : Machine) (obj : HostVal) (len : Nat) (rb : Bytes → RunSt → Res × RunSt) (next : Nat)
+    (cn : Value) (vs : List Value) (stack : List Value) (st : RunSt)
+    (hl : lookupFn M cn.inspect = none) (hu : lookupUser M cn.inspect = none) :
+    step M obj len rb Op.call.toNat vs.length next (cn :: (vs.reverse ++ stack)) st = .halt (err "noSuchFunction") st := by
+  have : Op.ofNat? Op.call.toNat = some .call := rfl
+  simp only [step, this, isBinary]
+  have hp : popN vs.length (vs.reverse ++ stack) = some (vs, stack) := by
+    unfold popN
+    have : ¬ ((vs.reverse ++ stack).length < vs.length) := by simp
+    simp only [this, ↓reduceIte]
+    have h1 : (vs.reverse ++ stack).take vs.length = vs.reverse := by simp
+    have h3 : (vs.reverse ++ stack).drop vs.length = stack := by simp
+    rw [h1, h3]; simp
+  simp only [Bool.false_eq_true, ↓reduceIte, hp, hl, hu]
+
+/-- … and for a user-defined function: `invoke` -/
+theorem step_call_user (M : Machine) (obj : HostVal) (len : Nat) (rb : Bytes → RunSt → Res × RunSt) (next : Nat)
+    (cn : Value) (vs : List Value) (stack : List Value) (st : RunSt) (uf : UserFn)
+    (hl : lookupFn M cn.inspect = none) (hu : lookupUser M cn.inspect = some uf) :
+    step M obj len rb Op.call.toNat vs.length next (cn :: (vs.reverse ++ stack)) st =
+      (match invoke rb uf vs st with
+       | (.error e, st) => .halt (.error e) st
+       | (.ok out, st) =>
+         match st.env.removeScope with
+         | none => .halt (err "removeScope") st
+         | some env => .cont next (if out.isType .VOID then stack else out :: stack) { st with env := env }) := by
+  have : Op.ofNat? Op.call.toNat = some .call := rfl
+  simp only [step, this, isBinary]
+  have hp : popN vs.length (vs.reverse ++ stack) = some (vs, stack) := by
+    unfold popN
+    have : ¬ ((vs.reverse ++ stack).length < vs.length) := by simp
+    simp only [this, ↓reduceIte]
+    have h1 : (vs.reverse ++ stack).take vs.length = vs.reverse := by simp
+    have h3 : (vs.reverse ++ stack).drop vs.length = stack := by simp
+    rw [h1, h3]; simp
+  simp only [Bool.false_eq_true, ↓reduceIte, hp, hl, hu]
+  cases invoke rb uf vs st with
+  | mk r s1 =>
+    cases r with
+    | error e => rfl
+    | ok out => rfl
+
+/-- where the VM stands after a call, according to how it ends -/
+def afterC (M : Machine) (obj : HostVal) (code : Bytes) (fuel ip : Nat) (stack : List Value)
+    (polls depth : Nat) : CallOut → Res × RunSt
+  | .value v env out => loop M obj code fuel ip (v :: stack) ⟨env, out, polls, depth⟩
+  | .novalue env out => loop M obj code fuel ip stack ⟨env, out, polls, depth⟩
+  | .failed e env out => (.error e, ⟨env, out, polls, depth⟩)
+  | .undefined => (.error .outOfFuel, ⟨⟨[], []⟩, [], polls, depth⟩)
+
+theorem invoke_eq' (rb : Bytes → RunSt → Res × RunSt) (uf : UserFn) (args : List Value) (st : RunSt) :
+    invoke rb uf args st =
+      if st.depth ≥ maxCallDepth then (err "callDepth", st)
+      else if uf.params.length != args.length then
+        (err "argCount", { st with env := st.env.addScope })
+      else if uf.code.isEmpty then
+        (err "emptyProgram", { st with env := (uf.params.zip args).foldl (fun e (p : Str × Value) => e.declare p.1 p.2) st.env.addScope })
+      else
+        let r := finish ((uf.params.zip args).foldl (fun e (p : Str × Value) => e.declare p.1 p.2) st.env.addScope).scopes.length
+                  (rb uf.code { st with env := (uf.params.zip args).foldl (fun e (p : Str × Value) => e.declare p.1 p.2) st.env.addScope,
+                                        depth := st.depth + 1 })
+        (r.1, { r.2 with depth := st.depth }) := by
+  unfold invoke
+  simp only []
+
+theorem fnCode_ne_nil (cb : List Instr) : encodeAll (fnCode cb) ≠ [] := by
+  unfold fnCode
+  split
+  · rename_i h
+    unfold endsRet at h
+    cases hl : cb.getLast? with
+    | none => simp [hl] at h
+    | some i =>
+      have hne : cb ≠ [] := by intro e; rw [e] at hl; simp at hl
+      obtain ⟨hd, tl, rfl⟩ := List.exists_cons_of_ne_nil hne
+      intro hx
+      have := congrArg List.length hx
+      rw [encodeAll_length] at this
+      simp only [codeSize_cons, List.length_nil] at this
+      have : 0 < hd.size := by unfold Instr.size; rcases WF.Op.length_cases hd.op with h | h <;> omega
+      omega
+  · intro hx
+    have := congrArg List.length hx
+    rw [encodeAll_length, codeSize_append] at this
+    simp [codeSize_cons, codeSize_nil, Instr.size, Op.length] at this
+
+/-- what the run of a user function's body yields, as the nested run of OpCall sees it -/
+def calleeRes (polls depth : Nat) : Outcome → Res × RunSt
+  | .returned v env out => (.ok v, ⟨env, out, polls, depth⟩)
+  | .failed e env out => (.error e, ⟨env, out, polls, depth⟩)
+  | .normal env out => (.ok .void, ⟨env, out, polls, depth⟩)
+  | .diverged => (.error .outOfFuel, ⟨⟨[], []⟩, [], polls, depth⟩)
+
+/-- **The body of a user-defined function runs as the language defines**: the nested run that OpCall
+    starts ends with the value of the body's `return`, with the void value if the body falls off its end,
+    or with the body's error - given the induction hypothesis for the function's own code. -/
+theorem callee_run (f : Nat) (ihAll : ∀ code', Ctx M code' → SIH M F obj code' f) (hnd : NeverDone M) (hpool : M.consts.length ≤ 65536)
+    (sf : SFn) (uf : UserFn) (cst : CState) (r : List Instr × CState)
+    (hpb : pureSs sf.body = true) (hcomp : compileStmts sf.body 0 cst = .ok r) (hcode : uf.code = encodeAll (fnCode r.1))
+    (hp : ∃ ex, M.consts = r.2.consts ++ ex) (hlen : uf.code.length ≤ 65536)
+    (hends : endsRet r.1 = true → ∀ depth f env out e' o', execSs M F obj depth f sf.body env out ≠ .normal e' o')
+    (env2 : Env) (o : Str) (polls depth : Nat)
+    (hndv : execSs M F obj depth f sf.body env2 o ≠ .diverged) :
+    ∃ n k, ∀ fuel, loop M obj uf.code (fuel + n) 0 [] ⟨env2, o, polls, depth⟩ =
+      calleeRes (polls + k) depth (execSs M F obj depth f sf.body env2 o) := by
+  have ctx' : Ctx M uf.code := ⟨hnd, hlen, hpool⟩
+  have hsz := compileStmts_size sf.body 0 cst _ hcomp
+  have hat : CodeAt uf.code 0 r.1 := by
+    unfold fnCode at hcode
+    split at hcode
+    · exact ⟨[], [], by rw [hcode]; simp, rfl⟩
+    · exact ⟨[], encodeAll [⟨Op.void, 0⟩, ⟨Op.return, 0⟩], by rw [hcode, encodeAll_append]; simp, rfl⟩
+  obtain ⟨n2, k2, q2, ih2⟩ := (ihAll uf.code ctx').Ss sf.body 0 cst r hpb hcomp hat hp [] env2 o polls depth hndv
+  cases hb : execSs M F obj depth f sf.body env2 o with
+  | diverged => exact absurd hb hndv
+  | returned v env' o' => exact ⟨n2, k2, fun fuel => by rw [ih2 fuel, hb]; simp [afterS, calleeRes]⟩
+  | failed e env' o' => exact ⟨n2, k2, fun fuel => by rw [ih2 fuel, hb]; simp [afterS, calleeRes]⟩
+  | normal env' o' =>
+    have hnr : endsRet r.1 = false := by
+      cases he : endsRet r.1
+      · rfl
+      · exact absurd hb (hends he depth f env2 o env' o')
+    have htail : CodeAt uf.code (0 + codeSize r.1) [⟨Op.void, 0⟩, ⟨Op.return, 0⟩] := by
+      have : uf.code = encodeAll (r.1 ++ [⟨Op.void, 0⟩, ⟨Op.return, 0⟩]) := by
+        rw [hcode]; unfold fnCode; simp [hnr]
+      have hc2 : CodeAt uf.code 0 (r.1 ++ [⟨Op.void, 0⟩, ⟨Op.return, 0⟩]) := ⟨[], [], by rw [this]; simp, rfl⟩
+      exact hc2.right
+    rw [hsz] at htail
+    have hret := htail.tail
+    simp only [Instr.size, Op.length] at hret
+    have hrun1 : ∀ fuel, loop M obj uf.code (fuel + n2) 0 [] ⟨env2, o, polls, depth⟩ =
+        loop M obj uf.code (fuel + q2) (0 + Stmt.sizes sf.body) [] ⟨env', o', polls + k2, depth⟩ := by
+      intro fuel; rw [ih2 fuel, hb]; rfl
+    have hrun2 : ∀ fuel, loop M obj uf.code (fuel + (1 + n2)) 0 [] ⟨env2, o, polls, depth⟩ =
+        loop M obj uf.code (fuel + q2) (0 + Stmt.sizes sf.body + 1) [.void] ⟨env', o', polls + k2 + 1, depth⟩ := by
+      intro fuel
+      rw [stepE hrun1 htail hnd (Or.inr rfl) 0 (by simp [storedArg, Op.length]) fuel, step_void]
+      simp [Instr.size, Op.length]
+    refine ⟨1 + (1 + n2), k2 + 1 + 1, fun fuel => ?_⟩
+    rw [stepE hrun2 hret hnd (Or.inr rfl) 0 (by simp [storedArg, Op.length]) fuel, step_return]
+    simp [calleeRes, Nat.add_assoc]
+
+/-- **A call runs as the language defines**: arguments left to right, then the function - a built-in or
+    host function first, else the user-defined one, whose body runs in a fresh scope holding the parameters
+    and whose scopes are gone afterwards; unknown names and wrong argument counts are errors. -/
+theorem call_ok (ctx : Ctx M code) (hF : FnOK M F obj) (f : Nat) (ihAll : ∀ code', Ctx M code' → SIH M F obj code' f)
+    (fn : Expr) (args : List Expr) (base : Nat) (cst : CState) (r : List Instr × CState) (hpa : pureEs args = true)
+    (h : compileExpr (.call fn args) base cst = .ok r) (hc : CodeAt code base r.1) (hp : ∃ ex, M.consts = r.2.consts ++ ex)
+    (stack : List Value) (env : Env) (out : Str) (polls depth : Nat)
+    (hnd : callWith (decide (depth ≥ maxCallDepth)) (fun b e o => execSs M F obj (depth + 1) f b e o) M F obj fn.str args env out ≠ .undefined) :
+    ∃ n k q, ∀ fuel, loop M obj code (fuel + n) base stack ⟨env, out, polls, depth⟩ =
+      afterC M obj code (fuel + q) (base + (Expr.call fn args).size) stack (polls + k) depth
+        (callWith (decide (depth ≥ maxCallDepth)) (fun b e o => execSs M F obj (depth + 1) f b e o) M F obj fn.str args env out) := by
+  have hlenc := ctx.len
+  simp only [compileExpr, bind_ok_eq, pure, Except.pure] at h
+  obtain ⟨⟨ca, st1⟩, h1, h3⟩ := h
+  cases h3
+  have s1 := compileExprs_size args base cst _ h1
+  simp only at s1
+  have hsz : (Expr.call fn args).size = Expr.sizes args + 3 + 3 := rfl
+  have hbound := hc.bound
+  simp only [codeSize_append, codeSize_cons, codeSize_nil, s1, Instr.size, Op.length, withConst_op] at hbound
+  have hk : CodeAt code (base + Expr.sizes args) [(withConst st1 .constant (.str fn.str)).1, ⟨.call, args.length⟩] := by
+    have := hc.right; rwa [s1] at this
+  have hcallc : CodeAt code (base + Expr.sizes args + 3) [⟨.call, args.length⟩] := by
+    have := hk.tail; simpa [Instr.size, withConst_op, Op.length] using this
+  obtain ⟨cn, hget, _, hinsp⟩ := withConst_pool st1 .constant (.str fn.str) M.consts hp
+  have hname : cn.inspect = fn.str := by rw [hinsp]; simp [Value.inspect]
+  have hlt : (withConst st1 .constant (.str fn.str)).1.arg < 65536 := by
+    have := (List.getElem?_eq_some_iff.mp hget).1
+    have := ctx.pool; omega
+  have hop : (withConst st1 .constant (.str fn.str)).1.op = .constant := rfl
+  have hargk : storedArg (withConst st1 .constant (.str fn.str)).1 = (withConst st1 .constant (.str fn.str)).1.arg := by
+    simp [storedArg, hop, Op.length, Nat.mod_eq_of_lt hlt]
+  have hal : args.length < 65536 := by
+    have := pures_length_le args hpa; omega
+  have hargc : storedArg ⟨.call, args.length⟩ = args.length := by
+    show (if Op.call.length = 3 then args.length % 65536 else 0) = args.length
+    rw [if_pos (by rfl : Op.call.length = 3), Nat.mod_eq_of_lt hal]
+  have r1 : ∃ ex, M.consts = st1.consts ++ ex := pool_trans hp (addConstant_ext st1 (.str fn.str))
+  obtain ⟨n1, k1, ih1⟩ := exprs_ok args base cst _ hpa h1 M obj code ctx hc.left r1 stack env out polls depth
+  simp only [callWith] at hnd ⊢
+  cases hev : evalEs M obj env args out with
+  | mk res o1 =>
+    cases res with
+    | error x => exact ⟨n1, k1, 0, fun fuel => by rw [ih1 fuel, hev]; simp [afterL, afterC]⟩
+    | ok vs =>
+      simp only [hev] at hnd
+      have hvl : vs.length = args.length := evalEs_length M obj env args out vs o1 hev
+      have hrun1 : ∀ fuel, loop M obj code (fuel + n1) base stack ⟨env, out, polls, depth⟩ =
+          loop M obj code fuel (base + Expr.sizes args) (vs.reverse ++ stack) ⟨env, o1, polls + k1, depth⟩ := by
+        intro fuel; rw [ih1 fuel, hev]; rfl
+      have hrun2 : ∀ fuel, loop M obj code (fuel + (1 + n1)) base stack ⟨env, out, polls, depth⟩ =
+          loop M obj code fuel (base + Expr.sizes args + 3) (cn :: (vs.reverse ++ stack)) ⟨env, o1, polls + k1 + 1, depth⟩ := by
+        apply finish_instr hrun1 hk ctx.nd (Or.inl hargk) _ hargk.symm
+        intro fuel
+        rw [hop, step_constant M obj _ _ _ _ _ _ cn hget]
+        simp [Instr.size, hop, Op.length]
+      cases hl : lookupFn M fn.str with
+      | some impl =>
+        -- a built-in or host function
+        dsimp only
+        refine ⟨1 + (1 + n1), k1 + 1 + 1, 0, ?_⟩
+        apply finish_instr hrun2 hcallc ctx.nd (Or.inl hargc) _ hargc.symm
+        intro fuel
+        rw [← hvl, step_call_host M obj _ _ _ cn vs stack _ impl (by rw [hname]; exact hl), hname]
+        generalize callImpl fn.str impl vs = cr
+        cases hr : cr.res with
+        | panic => simp [afterC, Nat.add_assoc]
+        | unsupported => simp [afterC, Nat.add_assoc]
+        | val v => cases v <;> simp [afterC, hsz, Instr.size, Op.length, Nat.add_assoc, Value.isType, Value.type?]
+      | none =>
+        rw [hl] at hnd
+        dsimp only at hnd ⊢
+        cases hfind : F.find fn.str with
+        | none =>
+          dsimp only
+          have hu := hF.missing fn.str hfind
+          refine ⟨1 + (1 + n1), k1 + 1 + 1, 0, ?_⟩
+          apply finish_instr hrun2 hcallc ctx.nd (Or.inl hargc) _ hargc.symm
+          intro fuel
+          rw [← hvl, step_call_unknown M obj _ _ _ cn vs stack _ (by rw [hname]; exact hl) (by rw [hname]; exact hu)]
+          simp [afterC, err, Nat.add_assoc]
+        | some sf =>
+          rw [hfind] at hnd
+          dsimp only at hnd ⊢
+          obtain ⟨uf, cst2, r2, hu, hpar, hpb, hcomp, hcode, hp2, hlen2, hends⟩ := hF.found fn.str sf hfind
+          have hne : uf.code.isEmpty = false := by
+            cases hcd : uf.code with
+            | nil => rw [hcd] at hcode; exact absurd hcode.symm (fnCode_ne_nil r2.1)
+            | cons b bs => rfl
+          by_cases hdp : depth ≥ maxCallDepth
+          · -- too many open calls
+            simp only [hdp, decide_true, ↓reduceIte]
+            refine ⟨1 + (1 + n1), k1 + 1 + 1, 0, ?_⟩
+            apply finish_instr hrun2 hcallc ctx.nd (Or.inl hargc) _ hargc.symm
+            intro fuel
+            rw [← hvl, step_call_user M obj _ _ _ cn vs stack _ uf (by rw [hname]; exact hl) (by rw [hname]; exact hu),
+              invoke_eq']
+            simp [hdp, afterC, err, Nat.add_assoc]
+          simp only [hdp, decide_false, Bool.false_eq_true, ↓reduceIte] at hnd ⊢
+          by_cases hac : (sf.params.length != vs.length) = true
+          · -- wrong number of arguments
+            simp only [hac, ↓reduceIte]
+            refine ⟨1 + (1 + n1), k1 + 1 + 1, 0, ?_⟩
+            apply finish_instr hrun2 hcallc ctx.nd (Or.inl hargc) _ hargc.symm
+            intro fuel
+            rw [← hvl, step_call_user M obj _ _ _ cn vs stack _ uf (by rw [hname]; exact hl) (by rw [hname]; exact hu),
+              invoke_eq']
+            simp [hdp, hpar, hac, afterC, err, Nat.add_assoc]
+          · simp only [hac, Bool.false_eq_true, ↓reduceIte] at hnd ⊢
+            have hndv : execSs M F obj (depth + 1) f sf.body ((sf.params.zip vs).foldl (fun e (p : Str × Value) => e.declare p.1 p.2) env.addScope) o1 ≠ .diverged := by
+              intro hd; rw [hd] at hnd; exact hnd rfl
+            obtain ⟨nC, kC, hcal⟩ := callee_run f ihAll ctx.nd ctx.pool sf uf cst2 r2 hpb hcomp hcode hp2 hlen2 hends
+              ((sf.params.zip vs).foldl (fun e (p : Str × Value) => e.declare p.1 p.2) env.addScope) o1 (polls + k1 + 1 + 1) (depth + 1) hndv
+            -- the call instruction, with `nC` turns of fuel left for the nested run
+            have hstep : ∀ fuel, loop M obj code (fuel + (nC + 1 + (1 + n1))) base stack ⟨env, out, polls, depth⟩ =
+                (match step M obj code.length (fun c s => loop M obj c (fuel + nC) 0 [] s) Op.call.toNat args.length
+                    (base + Expr.sizes args + 3 + 3) (cn :: (vs.reverse ++ stack)) ⟨env, o1, polls + k1 + 1 + 1, depth⟩ with
+                 | .cont ip' stack' st' => loop M obj code (fuel + nC) ip' stack' st'
+                 | .halt r st' => (r, st')) := by
+              intro fuel
+              rw [show fuel + (nC + 1 + (1 + n1)) = (fuel + nC + 1) + (1 + n1) by omega, hrun2 (fuel + nC + 1),
+                run_instr M obj hcallc ctx.nd (Or.inl hargc) _ env o1 _ depth (fuel + nC) _ hargc.symm]
+              rfl
+            have hinv : ∀ fuel, invoke (fun c s => loop M obj c (fuel + nC) 0 [] s) uf vs ⟨env, o1, polls + k1 + 1 + 1, depth⟩ =
+                ((calleeRes (polls + k1 + 1 + 1 + kC) (depth + 1) (execSs M F obj (depth + 1) f sf.body
+                    ((sf.params.zip vs).foldl (fun e (p : Str × Value) => e.declare p.1 p.2) env.addScope) o1)).1,
+                 { (finish ((sf.params.zip vs).foldl (fun e (p : Str × Value) => e.declare p.1 p.2) env.addScope).scopes.length
+                     (calleeRes (polls + k1 + 1 + 1 + kC) (depth + 1) (execSs M F obj (depth + 1) f sf.body
+                       ((sf.params.zip vs).foldl (fun e (p : Str × Value) => e.declare p.1 p.2) env.addScope) o1))).2 with depth := depth }) := by
+              intro fuel
+              rw [invoke_eq']
+              simp only [hdp, hpar, hac, hne, ↓reduceIte, Bool.false_eq_true]
+              rw [hcal fuel]
+              rfl
+            cases hb : execSs M F obj (depth + 1) f sf.body ((sf.params.zip vs).foldl (fun e (p : Str × Value) => e.declare p.1 p.2) env.addScope) o1 with
+            | diverged => exact absurd hb hndv
+            | failed e env' o' =>
+              refine ⟨nC + 1 + (1 + n1), k1 + 1 + 1 + kC, 0, fun fuel => ?_⟩
+              rw [hstep fuel, ← hvl, step_call_user M obj _ _ _ cn vs stack _ uf (by rw [hname]; exact hl) (by rw [hname]; exact hu),
+                hinv fuel, hb]
+              simp [calleeRes, finish, afterC, Nat.add_assoc]
+            | returned v env' o' =>
+              refine ⟨nC + 1 + (1 + n1), k1 + 1 + 1 + kC, nC, fun fuel => ?_⟩
+              rw [hstep fuel, ← hvl, step_call_user M obj _ _ _ cn vs stack _ uf (by rw [hname]; exact hl) (by rw [hname]; exact hu),
+                hinv fuel, hb]
+              simp only [calleeRes, finish, callEnd]
+              cases hrs : (env'.truncate ((sf.params.zip vs).foldl (fun e (p : Str × Value) => e.declare p.1 p.2) env.addScope).scopes.length).removeScope with
+              | none => simp [afterC, err, Nat.add_assoc]
+              | some e3 =>
+                by_cases hv : v.isType .VOID = true
+                · simp [afterC, hsz, Nat.add_assoc, hv]
+                · simp [afterC, hsz, Nat.add_assoc, hv]
+            | normal env' o' =>
+              refine ⟨nC + 1 + (1 + n1), k1 + 1 + 1 + kC, nC, fun fuel => ?_⟩
+              rw [hstep fuel, ← hvl, step_call_user M obj _ _ _ cn vs stack _ uf (by rw [hname]; exact hl) (by rw [hname]; exact hu),
+                hinv fuel, hb]
+              simp only [calleeRes, finish, callEnd]
+              cases hrs : (env'.truncate ((sf.params.zip vs).foldl (fun e (p : Str × Value) => e.declare p.1 p.2) env.addScope).scopes.length).removeScope with
+              | none => simp [afterC, err, Nat.add_assoc]
+              | some e3 => simp [afterC, hsz, Nat.add_assoc, Value.isType, Value.type?]
+
+theorem pureS_ret (e : Expr) (h : ∀ fn args, e ≠ .call fn args) : pureS (.ret e) = pureE e := by
+  cases e <;> first | rfl | exact absurd rfl (h _ _)
+
+theorem execS_ret (depth f : Nat) (e : Expr) (env : Env) (out : Str) (h : ∀ fn args, e ≠ .call fn args) :
+    execS M F obj depth (f + 1) (.ret e) env out =
+      (match evalE M obj env e out with
+       | (.ok v, o) => .returned v env o
+       | (.error x, o) => .failed x env o) := by
+  cases e <;> first | exact absurd rfl (h _ _) | simp only [execS]
+
+theorem stmtE_assign (name : Str) (v : Expr) (h : ∀ fn args, v ≠ .call fn args) : stmtE (.assign name v) = pureE v := by
+  cases v <;> first | rfl | exact absurd rfl (h _ _)
+
+theorem execE_assign (depth f : Nat) (name : Str) (v : Expr) (env : Env) (out : Str) (h : ∀ fn args, v ≠ .call fn args) :
+    execE M F obj depth (f + 1) (.assign name v) env out =
+      (match evalE M obj env v out with
+       | (.ok x, o) => .normal (env.set name x) o
+       | (.error e, o) => .failed e env o) := by
+  cases v <;> first | exact absurd rfl (h _ _) | simp only [execE]
+
+theorem step_Ss (ctx : Ctx M code) (f : Nat) (ihAll : ∀ code', Ctx M code' → SIH M F obj code' f) :
     ∀ (ss : List Stmt) (base : Nat) (cst : CState) (r : List Instr × CState), pureSs ss = true →
       compileStmts ss base cst = .ok r → CodeAt code base r.1 → (∃ ex, M.consts = r.2.consts ++ ex) →
-      ∀ (stack : List Value) (env : Env) (out : Str) (polls depth : Nat), execSs M obj (f + 1) ss env out ≠ .diverged →
+      ∀ (stack : List Value) (env : Env) (out : Str) (polls depth : Nat), execSs M F obj depth (f + 1) ss env out ≠ .diverged →
       ∃ n k q, ∀ fuel, loop M obj code (fuel + n) base stack ⟨env, out, polls, depth⟩ =
-        afterS M obj code (fuel + q) (base + Stmt.sizes ss) stack (polls + k) depth (execSs M obj (f + 1) ss env out) := by
+        afterS M obj code (fuel + q) (base + Stmt.sizes ss) stack (polls + k) depth (execSs M F obj depth (f + 1) ss env out) := by
+  have ih := ihAll code ctx
   intro ss base cst r hpure h hc hp stack env out polls depth hnd
   cases ss with
   | nil =>
@@ -468,7 +929,7 @@ theorem step_Ss (ctx : Ctx M code) (f : Nat) (ih : SIH M obj code f) :
     have hcs : CodeAt code base c := hc.left
     have hcr : CodeAt code (base + s.size) cs := by have := hc.right; rwa [s1] at this
     simp only [execSs] at hnd ⊢
-    cases hs : execS M obj f s env out with
+    cases hs : execS M F obj depth f s env out with
     | diverged => simp [hs] at hnd
     | returned v env' o' =>
       obtain ⟨n1, k1, e1, ih1⟩ := ih.S s base cst _ hpure.1 h1 hcs (pool_trans hp r2.ext) stack env out polls depth (by simp [hs])
@@ -488,12 +949,13 @@ theorem step_Ss (ctx : Ctx M code) (f : Nat) (ih : SIH M obj code f) :
       rw [h3 fuel]
       simp [Stmt.sizes, Nat.add_assoc]
 
-theorem step_S (ctx : Ctx M code) (f : Nat) (ih : SIH M obj code f) :
+theorem step_S (ctx : Ctx M code) (hF : FnOK M F obj) (f : Nat) (ihAll : ∀ code', Ctx M code' → SIH M F obj code' f) :
     ∀ (s : Stmt) (base : Nat) (cst : CState) (r : List Instr × CState), pureS s = true →
       compileStmt s base cst = .ok r → CodeAt code base r.1 → (∃ ex, M.consts = r.2.consts ++ ex) →
-      ∀ (stack : List Value) (env : Env) (out : Str) (polls depth : Nat), execS M obj (f + 1) s env out ≠ .diverged →
+      ∀ (stack : List Value) (env : Env) (out : Str) (polls depth : Nat), execS M F obj depth (f + 1) s env out ≠ .diverged →
       ∃ n k q, ∀ fuel, loop M obj code (fuel + n) base stack ⟨env, out, polls, depth⟩ =
-        afterS M obj code (fuel + q) (base + s.size) stack (polls + k) depth (execS M obj (f + 1) s env out) := by
+        afterS M obj code (fuel + q) (base + s.size) stack (polls + k) depth (execS M F obj depth (f + 1) s env out) := by
+  have ih := ihAll code ctx
   intro s base cst r hpure h hc hp stack env out polls depth hnd
   cases s with
   | expr e =>
@@ -505,12 +967,31 @@ theorem step_S (ctx : Ctx M code) (f : Nat) (ih : SIH M obj code f) :
     simp only [compileStmt, bind_ok_eq, pure, Except.pure] at h
     obtain ⟨⟨c, st1⟩, h1, h3⟩ := h
     cases h3
-    simp only [pureS] at hpure
     have s1 := compileExpr_size e base cst _ h1
     simp only at s1
     have hret : CodeAt code (base + e.size) [⟨Op.return, 0⟩] := by have := hc.right; rwa [s1] at this
+    by_cases hcall : ∃ fn args, e = .call fn args
+    · obtain ⟨fn, args, rfl⟩ := hcall
+      simp only [pureS] at hpure
+      simp only [execS] at hnd ⊢
+      have hndc : callWith (decide (depth ≥ maxCallDepth)) (fun b e o => execSs M F obj (depth + 1) f b e o) M F obj fn.str args env out ≠ .undefined := by
+        intro hx; rw [hx] at hnd; exact hnd rfl
+      obtain ⟨n1, k1, q1, ih1⟩ := call_ok ctx hF f ihAll fn args base cst _ hpure h1 hc.left hp stack env out polls depth hndc
+      cases hco : callWith (decide (depth ≥ maxCallDepth)) (fun b e o => execSs M F obj (depth + 1) f b e o) M F obj fn.str args env out with
+      | undefined => exact absurd hco hndc
+      | novalue env' out' => rw [hco] at hnd; exact absurd rfl hnd
+      | failed x env' out' => exact ⟨n1, k1, 0, fun fuel => by rw [ih1 fuel, hco]; simp [afterC, afterS]⟩
+      | value v env' out' =>
+        have hrun : ∀ fuel, loop M obj code (fuel + n1) base stack ⟨env, out, polls, depth⟩ =
+            loop M obj code (fuel + q1) (base + (Expr.call fn args).size) (v :: stack) ⟨env', out', polls + k1, depth⟩ := by
+          intro fuel; rw [ih1 fuel, hco]; rfl
+        refine ⟨1 + n1, k1 + 1, 0, fun fuel => ?_⟩
+        rw [stepE hrun hret ctx.nd (Or.inr rfl) 0 (by simp [storedArg, Op.length]) fuel, step_return]
+        simp [afterS, Nat.add_assoc]
+    have hnc : ∀ fn args, e ≠ .call fn args := fun fn args h => hcall ⟨fn, args, h⟩
+    rw [pureS_ret e hnc] at hpure
+    rw [execS_ret depth f e env out hnc] at hnd ⊢
     obtain ⟨n1, k1, ih1⟩ := expr_ok e base cst _ hpure h1 M obj code ctx hc.left hp stack env out polls depth
-    simp only [execS]
     cases hev : evalE M obj env e out with
     | mk res o1 =>
       cases res with
@@ -526,20 +1007,77 @@ theorem step_S (ctx : Ctx M code) (f : Nat) (ih : SIH M obj code f) :
         rw [step_return]
         simp [afterS, Nat.add_assoc]
 
-theorem step_E (ctx : Ctx M code) (f : Nat) (ih : SIH M obj code f) :
+theorem step_E (ctx : Ctx M code) (hF : FnOK M F obj) (f : Nat) (ihAll : ∀ code', Ctx M code' → SIH M F obj code' f) :
     ∀ (e : Expr) (base : Nat) (cst : CState) (r : List Instr × CState), stmtE e = true →
       compileExpr e base cst = .ok r → CodeAt code base r.1 → (∃ ex, M.consts = r.2.consts ++ ex) →
-      ∀ (stack : List Value) (env : Env) (out : Str) (polls depth : Nat), execE M obj (f + 1) e env out ≠ .diverged →
+      ∀ (stack : List Value) (env : Env) (out : Str) (polls depth : Nat), execE M F obj depth (f + 1) e env out ≠ .diverged →
       ∃ n k q, ∀ fuel, loop M obj code (fuel + n) base stack ⟨env, out, polls, depth⟩ =
-        afterS M obj code (fuel + q) (base + e.size) stack (polls + k) depth (execE M obj (f + 1) e env out) := by
+        afterS M obj code (fuel + q) (base + e.size) stack (polls + k) depth (execE M F obj depth (f + 1) e env out) := by
+  have ih := ihAll code ctx
   intro e base cst r hpure h hc hp stack env out polls depth hnd
   have hlen := ctx.len
   cases e with
+  | funcDef fname params body =>
+    simp only [compileExpr, bind_ok_eq, pure, Except.pure] at h
+    obtain ⟨⟨cb, st1⟩, h1, h3⟩ := h
+    cases h3
+    exact ⟨0, 0, 0, fun fuel => by simp [afterS, execE, Expr.size]⟩
+  | call fn args =>
+    simp only [stmtE] at hpure
+    simp only [execE] at hnd ⊢
+    have hndc : callWith (decide (depth ≥ maxCallDepth)) (fun b e o => execSs M F obj (depth + 1) f b e o) M F obj fn.str args env out ≠ .undefined := by
+      intro hx; rw [hx] at hnd; exact hnd rfl
+    obtain ⟨n1, k1, q1, ih1⟩ := call_ok ctx hF f ihAll fn args base cst _ hpure h hc hp stack env out polls depth hndc
+    cases hco : callWith (decide (depth ≥ maxCallDepth)) (fun b e o => execSs M F obj (depth + 1) f b e o) M F obj fn.str args env out with
+    | undefined => exact absurd hco hndc
+    | value v env' out' => rw [hco] at hnd; exact absurd rfl hnd
+    | failed x env' out' => exact ⟨n1, k1, 0, fun fuel => by rw [ih1 fuel, hco]; simp [afterC, afterS]⟩
+    | novalue env' out' => exact ⟨n1, k1, q1, fun fuel => by rw [ih1 fuel, hco]; simp [afterC, afterS]⟩
   | assign name v =>
     simp only [compileExpr, bind_ok_eq, pure, Except.pure] at h
     obtain ⟨⟨cv, st1⟩, h1, h3⟩ := h
     cases h3
-    simp only [stmtE] at hpure
+    by_cases hcall : ∃ fn args, v = .call fn args
+    · obtain ⟨fn, args, rfl⟩ := hcall
+      simp only [stmtE] at hpure
+      simp only [execE] at hnd ⊢
+      have s1 := compileExpr_size (.call fn args) base cst _ h1
+      simp only at s1
+      have hk : CodeAt code (base + (Expr.call fn args).size) [(withConst st1 .constant (.str name)).1, ⟨.set, 0⟩] := by
+        have := hc.right; rw [s1] at this; simpa using this
+      have hset : CodeAt code (base + (Expr.call fn args).size + 3) [⟨.set, 0⟩] := by
+        have := hk.tail; simpa [Instr.size, withConst_op, Op.length] using this
+      obtain ⟨cn, hget, _, hinsp⟩ := withConst_pool st1 .constant (.str name) M.consts hp
+      have hlt : (withConst st1 .constant (.str name)).1.arg < 65536 := by
+        have := (List.getElem?_eq_some_iff.mp hget).1
+        have := ctx.pool; omega
+      have hop : (withConst st1 .constant (.str name)).1.op = .constant := rfl
+      have harg : storedArg (withConst st1 .constant (.str name)).1 = (withConst st1 .constant (.str name)).1.arg := by
+        simp [storedArg, hop, Op.length, Nat.mod_eq_of_lt hlt]
+      have r1 : ∃ ex, M.consts = st1.consts ++ ex := pool_trans hp (addConstant_ext st1 (.str name))
+      have hndc : callWith (decide (depth ≥ maxCallDepth)) (fun b e o => execSs M F obj (depth + 1) f b e o) M F obj fn.str args env out ≠ .undefined := by
+        intro hx; rw [hx] at hnd; exact hnd rfl
+      obtain ⟨n1, k1, q1, ih1⟩ := call_ok ctx hF f ihAll fn args base cst _ hpure h1 hc.left r1 stack env out polls depth hndc
+      cases hco : callWith (decide (depth ≥ maxCallDepth)) (fun b e o => execSs M F obj (depth + 1) f b e o) M F obj fn.str args env out with
+      | undefined => exact absurd hco hndc
+      | novalue env' out' => rw [hco] at hnd; exact absurd rfl hnd
+      | failed x env' out' => exact ⟨n1, k1, 0, fun fuel => by rw [ih1 fuel, hco]; simp [afterC, afterS]⟩
+      | value x env' out' =>
+        have hrun1 : ∀ fuel, loop M obj code (fuel + n1) base stack ⟨env, out, polls, depth⟩ =
+            loop M obj code (fuel + q1) (base + (Expr.call fn args).size) (x :: stack) ⟨env', out', polls + k1, depth⟩ := by
+          intro fuel; rw [ih1 fuel, hco]; rfl
+        have hrun2 : ∀ fuel, loop M obj code (fuel + (1 + n1)) base stack ⟨env, out, polls, depth⟩ =
+            loop M obj code (fuel + q1) (base + (Expr.call fn args).size + 3) (cn :: x :: stack) ⟨env', out', polls + k1 + 1, depth⟩ := by
+          intro fuel
+          rw [stepE hrun1 hk ctx.nd (Or.inl harg) _ harg.symm fuel, hop, step_constant M obj _ _ _ _ _ _ cn hget]
+          simp [Instr.size, hop, Op.length]
+        refine ⟨1 + (1 + n1), k1 + 1 + 1, q1, fun fuel => ?_⟩
+        rw [stepE hrun2 hset ctx.nd (Or.inr rfl) 0 (by simp [storedArg, Op.length]) fuel, step_set]
+        have hname : cn.inspect = name := by rw [hinsp]; simp [Value.inspect]
+        simp [afterS, hname, Expr.size, Instr.size, Op.length, Nat.add_assoc]
+    have hnc : ∀ fn args, v ≠ .call fn args := fun fn args h => hcall ⟨fn, args, h⟩
+    rw [stmtE_assign name v hnc] at hpure
+    rw [execE_assign depth f name v env out hnc] at hnd ⊢
     have s1 := compileExpr_size v base cst _ h1
     simp only at s1
     have hk : CodeAt code (base + v.size) [(withConst st1 .constant (.str name)).1, ⟨.set, 0⟩] := by
@@ -555,7 +1093,6 @@ theorem step_E (ctx : Ctx M code) (f : Nat) (ih : SIH M obj code f) :
       simp [storedArg, hop, Op.length, Nat.mod_eq_of_lt hlt]
     have r1 : ∃ ex, M.consts = st1.consts ++ ex := pool_trans hp (addConstant_ext st1 (.str name))
     obtain ⟨n1, k1, ih1⟩ := expr_ok v base cst _ hpure h1 M obj code ctx hc.left r1 stack env out polls depth
-    simp only [execE]
     cases hev : evalE M obj env v out with
     | mk res o1 =>
       cases res with
@@ -626,7 +1163,7 @@ theorem step_E (ctx : Ctx M code) (f : Nat) (ih : SIH M obj code f) :
               rw [step_jif M obj _ _ _ _ _ _ cv (by omega)]
               simp [hcv, Instr.size, Op.length]
             obtain ⟨n2, k2, e2, ih2⟩ := ih.Ss cons _ _ _ hpure.2 h2 hca hp stack env o1 (polls + k1 + 1) depth hnd
-            cases hb : execSs M obj f cons env o1 with
+            cases hb : execSs M F obj depth f cons env o1 with
             | diverged => exact absurd hb hnd
             | returned v env' o' =>
               refine ⟨n2 + (1 + n1), k1 + 1 + k2, 0, ?_⟩
@@ -720,7 +1257,7 @@ theorem step_E (ctx : Ctx M code) (f : Nat) (ih : SIH M obj code f) :
               rw [step_jif M obj _ _ _ _ _ _ cv (by omega)]
               simp [hcv, Instr.size, Op.length]
             obtain ⟨n2, k2, e2, ih2⟩ := ih.Ss cons _ _ _ hpcons h2 hca (pool_trans hp r3.ext) stack env o1 (polls + k1 + 1) depth hnd
-            cases hb : execSs M obj f cons env o1 with
+            cases hb : execSs M F obj depth f cons env o1 with
             | diverged => exact absurd hb hnd
             | returned v env' o' =>
               refine ⟨n2 + (1 + n1), k1 + 1 + k2, 0, ?_⟩
@@ -750,7 +1287,7 @@ theorem step_E (ctx : Ctx M code) (f : Nat) (ih : SIH M obj code f) :
               rw [step_jif M obj _ _ _ _ _ _ cv (by omega)]
               simp [hcv]
             obtain ⟨n2, k2, e2, ih2⟩ := ih.Ss a _ _ _ hpa h4 hcb hp stack env o1 (polls + k1 + 1) depth hnd
-            cases hb : execSs M obj f a env o1 with
+            cases hb : execSs M F obj depth f a env o1 with
             | diverged => exact absurd hb hnd
             | returned v env' o' =>
               refine ⟨n2 + (1 + n1), k1 + 1 + k2, 0, ?_⟩
@@ -822,7 +1359,7 @@ theorem step_E (ctx : Ctx M code) (f : Nat) (ih : SIH M obj code f) :
             intro fuel
             rw [step_jif M obj _ _ _ _ _ _ cv (by omega)]
             simp [hcv, Instr.size, Op.length]
-          cases hb : execSs M obj f body env o1 with
+          cases hb : execSs M F obj depth f body env o1 with
           | diverged => simp [hb] at hnd
           | returned v env' o' =>
             obtain ⟨n2, k2, e2, ih2⟩ := ih.Ss body _ _ _ hpure.2 h2 hcb hp stack env o1 (polls + k1 + 1) depth (by simp [hb])
@@ -928,11 +1465,11 @@ theorem step_E (ctx : Ctx M code) (f : Nat) (ih : SIH M obj code f) :
       rw [stepE hrun hph ctx.nd (Or.inr rfl) 0 (by simp [storedArg, Op.length]) fuel, step_placeholder]
       simp [afterS, hsz, Instr.size, Op.length, Nat.add_assoc]
     simp only [execE] at hnd ⊢
-    have hnd1 : execArms M obj f v cs env out ≠ .done .diverged := by
+    have hnd1 : execArms M F obj depth f v cs env out ≠ .done .diverged := by
       intro hx; rw [hx] at hnd; exact hnd rfl
     obtain ⟨n1, k1, e1, ih1⟩ := ih.Am v cs base _ _ _ hpure.1 hpure.2 h1 hca (pool_trans hp r2.ext) hend (by omega)
       stack env out polls depth hnd1
-    cases ha : execArms M obj f v cs env out with
+    cases ha : execArms M F obj depth f v cs env out with
     | done o =>
       simp only [ha] at hnd ⊢
       cases o with
@@ -948,7 +1485,7 @@ theorem step_E (ctx : Ctx M code) (f : Nat) (ih : SIH M obj code f) :
         intro fuel; rw [ih1 fuel, ha]; rfl
       obtain ⟨n2, k2, e2, ih2⟩ := ih.Dm cs _ _ _ hpure.2 h2 hcd hp stack env' out' (polls + k1) depth hnd
       have h3 := chainE (f := fun y => loop M obj code y (base + Case.armsSize v.size cs) stack ⟨env', out', polls + k1, depth⟩) hrun1 n2 ih2
-      cases hb : execDefaults M obj f cs env' out' with
+      cases hb : execDefaults M F obj depth f cs env' out' with
       | diverged => exact absurd hb hnd
       | returned rv env2 o2 =>
         exact ⟨n2 + n1, k1 + k2, 0, fun fuel => by rw [h3 fuel, hb]; simp [afterS, Nat.add_assoc]⟩
@@ -1058,16 +1595,17 @@ theorem step_E (ctx : Ctx M code) (f : Nat) (ih : SIH M obj code f) :
 
 
 
-theorem step_Rm (ctx : Ctx M code) (f : Nat) (ih : SIH M obj code f) :
+theorem step_Rm (ctx : Ctx M code) (f : Nat) (ihAll : ∀ code', Ctx M code' → SIH M F obj code' f) :
     ∀ (v : Expr) (es : List Expr) (b : List Stmt) (base endPos : Nat) (cst : CState) (r : List Instr × CState),
       pureE v = true → pureEs es = true → pureSs b = true →
       compileArm (fun b s => compileExpr v b s) v.size (fun bs s => compileStmts b bs s) (Stmt.sizes b) es base endPos cst = .ok r →
       CodeAt code base r.1 → (∃ ex, M.consts = r.2.consts ++ ex) → endPos < code.length →
       base + Case.armSize v.size (Stmt.sizes b) es ≤ endPos →
-      ∀ (stack : List Value) (env : Env) (out : Str) (polls depth : Nat), execArm M obj (f + 1) v es b env out ≠ .done .diverged →
+      ∀ (stack : List Value) (env : Env) (out : Str) (polls depth : Nat), execArm M F obj depth (f + 1) v es b env out ≠ .done .diverged →
       ∃ n k q, ∀ fuel, loop M obj code (fuel + n) base stack ⟨env, out, polls, depth⟩ =
         afterA M obj code (fuel + q) endPos (base + Case.armSize v.size (Stmt.sizes b) es) stack (polls + k) depth
-          (execArm M obj (f + 1) v es b env out) := by
+          (execArm M F obj depth (f + 1) v es b env out) := by
+  have ih := ihAll code ctx
   intro v es b base endPos cst r hpv hpes hpb h hc hp hend hle stack env out polls depth hnd
   have hlen := ctx.len
   cases es with
@@ -1175,9 +1713,9 @@ theorem step_Rm (ctx : Ctx M code) (f : Nat) (ih : SIH M obj code f) :
                   intro fuel
                   rw [step_jif M obj _ _ _ _ _ _ t (by omega)]
                   simp [ht, Instr.size, Op.length]
-                have hnd' : execSs M obj f b env (o2 ++ o3) ≠ .diverged := fun hd => hnd (by rw [hd])
+                have hnd' : execSs M F obj depth f b env (o2 ++ o3) ≠ .diverged := fun hd => hnd (by rw [hd])
                 obtain ⟨n3, k3, e3, ih3⟩ := ih.Ss b _ _ _ hpb h3 hcb p3 stack env (o2 ++ o3) (polls + k1 + k2 + 1 + 1) depth hnd'
-                cases hb : execSs M obj f b env (o2 ++ o3) with
+                cases hb : execSs M F obj depth f b env (o2 ++ o3) with
                 | diverged => exact absurd hb hnd'
                 | returned rv env' o' =>
                   refine ⟨n3 + (1 + (1 + (n2 + n1))), k1 + k2 + 1 + 1 + k3, 0, ?_⟩
@@ -1209,16 +1747,17 @@ theorem step_Rm (ctx : Ctx M code) (f : Nat) (ih : SIH M obj code f) :
                 rw [ih3 fuel, hsz]
                 simp [Nat.add_assoc]
 
-theorem step_Am (ctx : Ctx M code) (f : Nat) (ih : SIH M obj code f) :
+theorem step_Am (ctx : Ctx M code) (f : Nat) (ihAll : ∀ code', Ctx M code' → SIH M F obj code' f) :
     ∀ (v : Expr) (cs : List Case) (base endPos : Nat) (cst : CState) (r : List Instr × CState),
       pureE v = true → pureCases cs = true →
       compileArms (fun b s => compileExpr v b s) v.size cs base endPos cst = .ok r →
       CodeAt code base r.1 → (∃ ex, M.consts = r.2.consts ++ ex) → endPos < code.length →
       base + Case.armsSize v.size cs ≤ endPos →
-      ∀ (stack : List Value) (env : Env) (out : Str) (polls depth : Nat), execArms M obj (f + 1) v cs env out ≠ .done .diverged →
+      ∀ (stack : List Value) (env : Env) (out : Str) (polls depth : Nat), execArms M F obj depth (f + 1) v cs env out ≠ .done .diverged →
       ∃ n k q, ∀ fuel, loop M obj code (fuel + n) base stack ⟨env, out, polls, depth⟩ =
         afterA M obj code (fuel + q) endPos (base + Case.armsSize v.size cs) stack (polls + k) depth
-          (execArms M obj (f + 1) v cs env out) := by
+          (execArms M F obj depth (f + 1) v cs env out) := by
+  have ih := ihAll code ctx
   intro v cs base endPos cst r hpv hpc h hc hp hend hle stack env out polls depth hnd
   cases cs with
   | nil =>
@@ -1250,11 +1789,11 @@ theorem step_Am (ctx : Ctx M code) (f : Nat) (ih : SIH M obj code f) :
       have hca : CodeAt code base ca := hc.left
       have hcr : CodeAt code (base + Case.armSize v.size (Stmt.sizes b) es) cr := by
         have := hc.right; rwa [s1] at this
-      have hnd1 : execArm M obj f v es b env out ≠ .done .diverged := by
+      have hnd1 : execArm M F obj depth f v es b env out ≠ .done .diverged := by
         intro hx; rw [hx] at hnd; exact hnd rfl
       obtain ⟨n1, k1, e1, ih1⟩ := ih.Rm v es b base endPos cst _ hpv hpc.1.1 hpc.1.2 h1 hca (pool_trans hp r2.ext) hend (by omega)
         stack env out polls depth hnd1
-      cases ha : execArm M obj f v es b env out with
+      cases ha : execArm M F obj depth f v es b env out with
       | done o =>
         refine ⟨n1, k1, e1, fun fuel => ?_⟩
         rw [ih1 fuel, ha]
@@ -1270,12 +1809,13 @@ theorem step_Am (ctx : Ctx M code) (f : Nat) (ih : SIH M obj code f) :
         rw [h3 fuel]
         simp [Nat.add_assoc]
 
-theorem step_Dm (ctx : Ctx M code) (f : Nat) (ih : SIH M obj code f) :
+theorem step_Dm (ctx : Ctx M code) (f : Nat) (ihAll : ∀ code', Ctx M code' → SIH M F obj code' f) :
     ∀ (cs : List Case) (base : Nat) (cst : CState) (r : List Instr × CState), pureCases cs = true →
       compileDefaults cs base cst = .ok r → CodeAt code base r.1 → (∃ ex, M.consts = r.2.consts ++ ex) →
-      ∀ (stack : List Value) (env : Env) (out : Str) (polls depth : Nat), execDefaults M obj (f + 1) cs env out ≠ .diverged →
+      ∀ (stack : List Value) (env : Env) (out : Str) (polls depth : Nat), execDefaults M F obj depth (f + 1) cs env out ≠ .diverged →
       ∃ n k q, ∀ fuel, loop M obj code (fuel + n) base stack ⟨env, out, polls, depth⟩ =
-        afterS M obj code (fuel + q) (base + Case.defaultsSize cs) stack (polls + k) depth (execDefaults M obj (f + 1) cs env out) := by
+        afterS M obj code (fuel + q) (base + Case.defaultsSize cs) stack (polls + k) depth (execDefaults M F obj depth (f + 1) cs env out) := by
+  have ih := ihAll code ctx
   intro cs base cst r hpc h hc hp stack env out polls depth hnd
   cases cs with
   | nil =>
@@ -1301,10 +1841,10 @@ theorem step_Dm (ctx : Ctx M code) (f : Nat) (ih : SIH M obj code f) :
       have hcb : CodeAt code base cb := hc.left
       have hcr : CodeAt code (base + Stmt.sizes b) cr := by
         have := hc.right; rwa [s1] at this
-      have hnd1 : execSs M obj f b env out ≠ .diverged := by
+      have hnd1 : execSs M F obj depth f b env out ≠ .diverged := by
         intro hx; rw [hx] at hnd; exact hnd rfl
       obtain ⟨n1, k1, e1, ih1⟩ := ih.Ss b base cst _ hpc.1.2 h1 hcb (pool_trans hp r2.ext) stack env out polls depth hnd1
-      cases hb : execSs M obj f b env out with
+      cases hb : execSs M F obj depth f b env out with
       | diverged => exact absurd hb hnd1
       | returned rv env' o' => exact ⟨n1, k1, 0, fun fuel => by rw [ih1 fuel, hb]; simp [afterS]⟩
       | failed x env' o' => exact ⟨n1, k1, 0, fun fuel => by rw [ih1 fuel, hb]; simp [afterS]⟩
@@ -1325,15 +1865,16 @@ theorem step_Dm (ctx : Ctx M code) (f : Nat) (ih : SIH M obj code f) :
       rw [hsz]
       exact ih.Dm rest base cst r hpc.2 h hc hp stack env out polls depth hnd
 
-theorem step_I (ctx : Ctx M code) (f : Nat) (ih : SIH M obj code f) :
+theorem step_I (ctx : Ctx M code) (f : Nat) (ihAll : ∀ code', Ctx M code' → SIH M F obj code' f) :
     ∀ (idx x : Str) (v : Expr) (body : List Stmt) (base : Nat) (cst : CState) (r : List Instr × CState),
       pureE v = true → pureSs body = true →
       compileExpr (.foreachE idx x v body) base cst = .ok r → CodeAt code base r.1 → (∃ ex, M.consts = r.2.consts ++ ex) →
       ∀ (it : Value) (k : Nat) (stack : List Value) (env : Env) (out : Str) (polls depth : Nat),
-        execIter M obj (f + 1) idx x body it k env out ≠ .diverged →
+        execIter M F obj depth (f + 1) idx x body it k env out ≠ .diverged →
       ∃ n k' q, ∀ fuel, loop M obj code (fuel + n) (base + v.size + 1) (.iterating it k :: stack) ⟨env, out, polls, depth⟩ =
         afterS M obj code (fuel + q) (base + (Expr.foreachE idx x v body).size) stack (polls + k') depth
-          (execIter M obj (f + 1) idx x body it k env out) := by
+          (execIter M F obj depth (f + 1) idx x body it k env out) := by
+  have ih := ihAll code ctx
   intro idx x v body base cst r hpv hpb h hc hp it k stack env out polls depth hnd
   obtain ⟨cv, st1, cb, ci, cx, L⟩ := foreach_layout h hc hp
   have hlen := ctx.len
@@ -1427,7 +1968,7 @@ theorem step_I (ctx : Ctx M code) (f : Nat) (ih : SIH M obj code f) :
       intro fuel
       rw [step_jif M obj _ _ _ _ _ _ (.bool true) (by omega)]
       simp [Value.truthy, Instr.size, Op.length]
-    generalize hb : execSs M obj f body (if idx.isEmpty then env.declare x val else (env.declare x val).declare idx i) out = ob at hnd ⊢
+    generalize hb : execSs M F obj depth f body (if idx.isEmpty then env.declare x val else (env.declare x val).declare idx i) out = ob at hnd ⊢
     cases ob with
     | diverged => simp at hnd
     | returned rv env' o' =>
@@ -1463,16 +2004,25 @@ theorem step_I (ctx : Ctx M code) (f : Nat) (ih : SIH M obj code f) :
       rw [h7 fuel]; simp [Nat.add_assoc]
 
 /-- **Statements run as the language defines**, for every budget of the semantics -/
-theorem SIH_all (ctx : Ctx M code) : ∀ f, SIH M obj code f
-  | 0 => SIH_zero M obj code
-  | f + 1 => ⟨step_E ctx f (SIH_all ctx f), step_S ctx f (SIH_all ctx f), step_Ss ctx f (SIH_all ctx f), step_I ctx f (SIH_all ctx f),
-      step_Rm ctx f (SIH_all ctx f), step_Am ctx f (SIH_all ctx f), step_Dm ctx f (SIH_all ctx f)⟩
+theorem SIH_all (hF : FnOK M F obj) : ∀ (f : Nat) (code : Bytes), Ctx M code → SIH M F obj code f
+  | 0, code, _ => SIH_zero M F obj code
+  | f + 1, code, ctx =>
+    ⟨step_E ctx hF f (SIH_all hF f), step_S ctx hF f (SIH_all hF f), step_Ss ctx f (SIH_all hF f), step_I ctx f (SIH_all hF f),
+      step_Rm ctx f (SIH_all hF f), step_Am ctx f (SIH_all hF f), step_Dm ctx f (SIH_all hF f)⟩
 
 end
 
 mutual
   theorem normExpr_stmtE : ∀ (e : Expr), stmtE e = true → normExpr e = e
-    | .assign n v, h => by simp only [stmtE] at h; simp [normExpr, normExpr_pure v h]
+    | .assign n (.call fn args), h => by simp only [stmtE] at h; simp [normExpr, normExprs_pure args h]
+    | .call fn args, h => by simp only [stmtE] at h; simp [normExpr, normExprs_pure args h]
+    | .funcDef n ps b, h => by simp only [stmtE] at h; simp [normExpr, normStmts_pure b h]
+    | .assign n v, h => by
+      by_cases hcall : ∃ fn args, v = .call fn args
+      · obtain ⟨fn, args, rfl⟩ := hcall
+        simp only [stmtE] at h; simp [normExpr, normExprs_pure args h]
+      · rw [stmtE_assign n v (fun fn args e => hcall ⟨fn, args, e⟩)] at h
+        simp [normExpr, normExpr_pure v h]
     | .ifE c cons none, h => by
       simp only [stmtE, Bool.and_eq_true] at h
       simp [normExpr, normExpr_pure c h.1, normStmts_pure cons h.2]
@@ -1497,7 +2047,13 @@ mutual
       simp only [pureCases, Bool.and_eq_true] at h
       simp [normCases, normExprs_pure es h.1.1, normStmts_pure b h.1.2, normCases_pure cs h.2]
   theorem normStmt_pure : ∀ (s : Stmt), pureS s = true → normStmt s = s
-    | .ret e, h => by simp only [pureS] at h; simp [normStmt, normExpr_pure e h]
+    | .ret (.call fn args), h => by simp only [pureS] at h; simp [normStmt, normExpr, normExprs_pure args h]
+    | .ret e, h => by
+      by_cases hcall : ∃ fn args, e = .call fn args
+      · obtain ⟨fn, args, rfl⟩ := hcall
+        simp only [pureS] at h; simp [normStmt, normExpr, normExprs_pure args h]
+      · rw [pureS_ret e (fun fn args x => hcall ⟨fn, args, x⟩)] at h
+        simp [normStmt, normExpr_pure e h]
     | .expr e, h => by simp only [pureS] at h; simp [normStmt, normExpr_stmtE e h]
   theorem normStmts_pure : ∀ (ss : List Stmt), pureSs ss = true → normStmts ss = ss
     | [], _ => rfl
@@ -1505,18 +2061,6 @@ mutual
       simp only [pureSs, Bool.and_eq_true] at h
       simp [normStmts, normStmt_pure s h.1, normStmts_pure ss h.2]
 end
-
-theorem pureS_size_pos : ∀ (s : Stmt), pureS s = true → 1 ≤ s.size
-  | .ret e, _ => by simp [Stmt.size]
-  | .expr (.assign _ v), _ => by simp [Stmt.size, Expr.size]
-  | .expr (.ifE c cons none), _ => by simp [Stmt.size, Expr.size]
-  | .expr (.ifE c cons (some a)), _ => by simp [Stmt.size, Expr.size]
-  | .expr (.whileE c b), _ => by simp [Stmt.size, Expr.size]
-  | .expr (.foreachE i x v b), _ => by simp [Stmt.size, Expr.size]
-  | .expr (.switchE v cs), _ => by simp [Stmt.size, Expr.size]
-  | .expr (.infix op (.ident n) r), h => by
-    simp only [pureS, stmtE, Bool.and_eq_true] at h
-    simp [Stmt.size, Expr.size, h.1]
 
 /-- the result of a run, according to how the script's top-level block ends: running off the end yields
     null, `return` its value, an error that error -/
@@ -1532,13 +2076,14 @@ def programResult (polls depth : Nat) : Outcome → Option (Res × RunSt)
     the semantics that suffices: a run of the unoptimised program ends with exactly the outcome of the
     big-step semantics - the statements the language selects, in order; `return` ends the script at once
     with its value; running off the end yields null - with the variables and the output it prescribes. -/
-theorem program_correct (prog : Program) (hp : pureSs prog = true) (hne : prog ≠ []) (c : Compiled)
+theorem program_correct (F : FnTable) (prog : Program) (hp : pureSs prog = true) (hne : 1 ≤ Stmt.sizes prog) (c : Compiled)
     (hc : compileProgram prog = .ok c) (fns : List (Str × FnImpl)) (obj : HostVal) (env : Env) (out : Str)
     (polls depth f : Nat)
-    (hnd : execSs (Api.newMachine c false fns (fun _ => false)) obj f prog env out ≠ .diverged) :
+    (hF : FnOK (Api.newMachine c false fns (fun _ => false)) F obj)
+    (hnd : execSs (Api.newMachine c false fns (fun _ => false)) F obj depth f prog env out ≠ .diverged) :
     ∃ n k, ∀ fuel, ∃ st',
       run (Api.newMachine c false fns (fun _ => false)) obj (fuel + n) ⟨env, out, polls, depth⟩ = st' ∧
-      (match programResult (polls + k) depth (execSs (Api.newMachine c false fns (fun _ => false)) obj f prog env out) with
+      (match programResult (polls + k) depth (execSs (Api.newMachine c false fns (fun _ => false)) F obj depth f prog env out) with
        | some (r, s) => st'.1 = r ∧ st'.2.out = s.out ∧ st'.2.env.globals = s.env.globals ∧ st'.2.polls = s.polls
        | none => True) := by
   simp only [compileProgram, bind, Except.bind, pure, Except.pure] at hc
@@ -1556,31 +2101,25 @@ theorem program_correct (prog : Program) (hp : pureSs prog = true) (hne : prog 
         simp only [Bool.or_eq_true, decide_eq_true_eq, not_or, Nat.not_lt, List.any_eq_true, not_exists, not_and] at hsize
         obtain ⟨⟨hs1, hs2⟩, _⟩ := hsize
         obtain ⟨hmain, hconsts, hdone⟩ := newMachine_unopt ⟨st.consts, code, st.funcs⟩ fns (fun _ => false)
-        generalize Api.newMachine ⟨st.consts, code, st.funcs⟩ false fns (fun _ => false) = M at hmain hconsts hdone hnd ⊢
+        generalize Api.newMachine ⟨st.consts, code, st.funcs⟩ false fns (fun _ => false) = M at hmain hconsts hdone hnd hF ⊢
         simp only at hmain hconsts
         have hsz := compileStmts_size prog 0 ⟨[], []⟩ _ hcomp
         simp only at hsz
         have hlenb : (encodeAll code).length = codeSize code := encodeAll_length _
         have ctx : Ctx M M.main := ⟨fun n => by rw [hdone], by rw [hmain, hlenb]; exact hs1, by rw [hconsts]; exact hs2⟩
         have hcode : CodeAt M.main 0 code := ⟨[], [], by rw [hmain]; simp, rfl⟩
-        obtain ⟨n1, k1, q1, ih⟩ := (SIH_all (obj := obj) ctx f).Ss prog 0 ⟨[], []⟩ _ hp hcomp hcode ⟨[], by simp [hconsts]⟩ [] env out polls depth hnd
+        obtain ⟨n1, k1, q1, ih⟩ := (SIH_all (F := F) (obj := obj) hF f M.main ctx).Ss prog 0 ⟨[], []⟩ _ hp hcomp hcode ⟨[], by simp [hconsts]⟩ [] env out polls depth hnd
         have hmlen : M.main.length = Stmt.sizes prog := by rw [hmain, hlenb, hsz]
         have hnempty : M.main.isEmpty = false := by
-          cases prog with
-          | nil => exact absurd rfl hne
-          | cons s0 rest =>
-            simp only [pureSs, Bool.and_eq_true] at hp
-            have := pureS_size_pos s0 hp.1
-            simp only [Stmt.sizes] at hmlen
-            cases hm : M.main with
-            | nil => rw [hm] at hmlen; simp at hmlen; omega
-            | cons b bs => rfl
+          cases hm : M.main with
+          | nil => rw [hm] at hmlen; simp at hmlen; omega
+          | cons b bs => rfl
         refine ⟨n1 + 1, k1, fun fuel => ⟨_, rfl, ?_⟩⟩
         simp only [run, hnempty, Bool.false_eq_true, ↓reduceIte, finish]
         have := ih (fuel + 1)
         rw [show fuel + 1 + n1 = fuel + (n1 + 1) by omega] at this
         rw [this]
-        cases hoc : execSs M obj f prog env out with
+        cases hoc : execSs M F obj depth f prog env out with
         | diverged => exact absurd hoc hnd
         | normal env' o' =>
           simp only [afterS, programResult, Nat.zero_add]
